@@ -86,6 +86,7 @@ def build_world(ctx):
     cent = W.own("init_centroids", X[:C].copy() + 0.1)
     models = W.own("model_means", m[None] + r.normal(size=(2, C, D)))
     W.alpha = W.own("map_alpha", r.uniform(0.2, 0.8, C))
+    W.init_w = W.own("init_weights", r.integers(1, 9, C).astype(float) * (1.0 if r.random() < 0.5 else 0.1))  # counts / tenths, not normalised
     W.C, W.D, W.X, W.ubm, W.stats, W.cent, W.models = C, D, X, ubm, stats, cent, models
     W.use_dask = bool(r.integers(0, 2))
     return W
@@ -138,6 +139,14 @@ def calls_for(W, rng):
                        update_weights=True, mean_var_update_threshold=2.0 * len(X))
         g.fit(Xin())
         return g, None
+
+    def gmm_map_given_weights():
+        # a MAP machine started from the caller's own weight vector (relative frequencies, not normalised), weights not adapted: the
+        # array given to the constructor is the caller's (what the machine does with its own reference is its business - the
+        # machine is not inspected for aliasing here - but the caller's numbers must still be there afterwards)
+        g = GMMMachine(C, trainer="map", ubm=W.ubm, weights=W.init_w, max_fitting_steps=1, update_weights=False)
+        g.fit(Xin())
+        return None, [g.log_likelihood(X)]
 
     def gmm_map_unfitted():
         g = GMMMachine(C, trainer="map", ubm=W.ubm)
@@ -216,7 +225,7 @@ def calls_for(W, rng):
         return [wc, wh], [wc.transform(X), wh.transform(X)]
 
     out = {"kmeans_fit_0": (kmeans(0), []), "kmeans_fit_2": (kmeans(2), []), "gmm_ml_fit": (gmm_ml, []), "gmm_map_fit": (gmm_map, []),
-           "gmm_map_partial_fit": (gmm_map_partial, []), "gmm_map_alpha_array_fit": (gmm_map_alpha_array, []), "gmm_map_unfitted_use": (gmm_map_unfitted, []),
+           "gmm_map_partial_fit": (gmm_map_partial, []), "gmm_map_alpha_array_fit": (gmm_map_alpha_array, []), "gmm_map_unfitted_use": (gmm_map_unfitted, []), "gmm_map_given_weights_fit": (gmm_map_given_weights, []),
            "gmm_kmeans_init_fit": (gmm_kmeans_init, []), "acc_stats_transform": (acc, []), "stats_add": (add, []),
            "stats_iadd": (iadd, ["stats2.n", "stats2.sum_px", "stats2.sum_pxx"]), "stats_accumulate_from_empty": (accumulate, []), "fa_fit_using_array_late_ubm": (fa_late_ubm, []), "linear_scoring": (lin, []), "isv_fit_enroll_score": (isv, []),
            "jfa_fit_enroll_score": (jfa, []), "isv_array_entry_points": (isv_array, []), "ivector_fit_project": (ivec, []), "wccn_whitening": (linear, [])}
